@@ -1,1 +1,786 @@
-//! stub
+//! Raw TCP peers (client and backend) and an independent PROXY protocol v2 codec (C18).
+//!
+//! Both peers run the same `Peer` engine: send a position-keyed byte stream (optionally preceded
+//! by literal bytes written in plan-chosen fragments: the PROXY header) while concurrently reading
+//! and verifying the other side's stream, then end the connection the way the plan says.
+#![allow(dead_code)]
+
+use std::any::Any;
+use std::collections::VecDeque;
+use std::net::{IpAddr, Ipv4Addr, Ipv6Addr, SocketAddr};
+
+use serde::{Deserialize, Serialize};
+
+use super::{gen_byte, rd, wr, BodyCheck, Io, Pace};
+use crate::prng::Prng;
+use crate::sys;
+use crate::world::{Actor, Step, World};
+
+// =========================================================================== PROXY protocol v2
+
+pub const PP2_SIG: [u8; 12] = [0x0D, 0x0A, 0x0D, 0x0A, 0x00, 0x0D, 0x0A, 0x51, 0x55, 0x49, 0x54, 0x0A];
+
+/// Address block of a v2 header as the harness writes it (spec §2.2).
+#[derive(Clone, Debug, Serialize, Deserialize, PartialEq)]
+pub enum PpAddr {
+    /// AF_UNSPEC: `filler` opaque bytes the receiver must skip
+    Unspec { filler: usize },
+    /// AF_INET / AF_INET6 (both addresses must be of the same family)
+    Inet { src: SocketAddr, dst: SocketAddr },
+    /// AF_UNIX: two 108-byte paths (shorter values are zero padded)
+    Unix { src: Vec<u8>, dst: Vec<u8> },
+}
+
+#[derive(Clone, Debug, Serialize, Deserialize, PartialEq)]
+pub struct PpSpec {
+    /// 0 = LOCAL, 1 = PROXY (other values: malformed on purpose)
+    pub command: u8,
+    /// 2 (other values: malformed on purpose)
+    pub version: u8,
+    /// transport nibble: 0 UNSPEC, 1 STREAM, 2 DGRAM
+    pub transport: u8,
+    pub addr: PpAddr,
+    /// (type, value) TLVs appended after the address block
+    pub tlvs: Vec<(u8, Vec<u8>)>,
+}
+
+impl PpSpec {
+    pub fn family(&self) -> u8 {
+        match &self.addr {
+            PpAddr::Unspec { .. } => 0,
+            PpAddr::Inet { src: SocketAddr::V4(_), .. } => 1,
+            PpAddr::Inet { .. } => 2,
+            PpAddr::Unix { .. } => 3,
+        }
+    }
+    pub fn encode(&self) -> Vec<u8> {
+        let mut block: Vec<u8> = Vec::new();
+        match &self.addr {
+            PpAddr::Unspec { filler } => {
+                for i in 0..*filler { block.push(0xA0 ^ (i as u8)); }
+            }
+            PpAddr::Inet { src: SocketAddr::V4(s), dst: SocketAddr::V4(d) } => {
+                block.extend_from_slice(&s.ip().octets());
+                block.extend_from_slice(&d.ip().octets());
+                block.extend_from_slice(&s.port().to_be_bytes());
+                block.extend_from_slice(&d.port().to_be_bytes());
+            }
+            PpAddr::Inet { src, dst } => {
+                let to6 = |a: &SocketAddr| match a.ip() { IpAddr::V6(i) => i, IpAddr::V4(i) => i.to_ipv6_mapped() };
+                block.extend_from_slice(&to6(src).octets());
+                block.extend_from_slice(&to6(dst).octets());
+                block.extend_from_slice(&src.port().to_be_bytes());
+                block.extend_from_slice(&dst.port().to_be_bytes());
+            }
+            PpAddr::Unix { src, dst } => {
+                for p in [src, dst] {
+                    let mut b = [0u8; 108];
+                    let n = p.len().min(108);
+                    b[..n].copy_from_slice(&p[..n]);
+                    block.extend_from_slice(&b);
+                }
+            }
+        }
+        // TLVs only make sense after a complete address block; for UNSPEC they are part of the skipped bytes
+        for (t, v) in &self.tlvs {
+            block.push(*t);
+            block.extend_from_slice(&(v.len() as u16).to_be_bytes());
+            block.extend_from_slice(v);
+        }
+        let mut out = Vec::with_capacity(16 + block.len());
+        out.extend_from_slice(&PP2_SIG);
+        out.push((self.version << 4) | (self.command & 0x0F));
+        out.push((self.family() << 4) | (self.transport & 0x0F));
+        out.extend_from_slice(&(block.len() as u16).to_be_bytes());
+        out.extend_from_slice(&block);
+        out
+    }
+}
+
+#[derive(Clone, Debug, Serialize, Deserialize, PartialEq)]
+pub struct PpDecoded {
+    pub command: u8,
+    pub family: u8,
+    pub transport: u8,
+    pub src: Option<SocketAddr>,
+    pub dst: Option<SocketAddr>,
+    pub unix: Option<(Vec<u8>, Vec<u8>)>,
+    pub tlvs: Vec<(u8, Vec<u8>)>,
+    /// 16 + declared length
+    pub total_len: usize,
+}
+
+#[derive(Clone, Debug, PartialEq)]
+pub enum PpErr {
+    /// not enough bytes yet; at least this many are needed in total
+    Short(usize),
+    BadSignature(usize),
+    BadVersion(u8),
+    BadCommand(u8),
+    BadFamily(u8),
+    BadTransport(u8),
+    /// declared length smaller than the address block of the family
+    LenTooSmall { family: u8, len: usize },
+    BadTlv(usize),
+}
+
+/// Strict decoder written from the specification (haproxy proxy-protocol.txt §2.2), not from sozu.
+pub fn decode_v2(buf: &[u8]) -> Result<PpDecoded, PpErr> {
+    for (i, b) in PP2_SIG.iter().enumerate() {
+        match buf.get(i) {
+            None => return Err(PpErr::Short(16)),
+            Some(x) if x != b => return Err(PpErr::BadSignature(i)),
+            _ => {}
+        }
+    }
+    if buf.len() < 16 {
+        // still validate the bytes we have
+        if let Some(vc) = buf.get(12) {
+            if vc >> 4 != 2 { return Err(PpErr::BadVersion(vc >> 4)); }
+            if vc & 0x0F > 1 { return Err(PpErr::BadCommand(vc & 0x0F)); }
+        }
+        if let Some(fp) = buf.get(13) {
+            if fp >> 4 > 3 { return Err(PpErr::BadFamily(fp >> 4)); }
+            if fp & 0x0F > 2 { return Err(PpErr::BadTransport(fp & 0x0F)); }
+        }
+        return Err(PpErr::Short(16));
+    }
+    let vc = buf[12];
+    if vc >> 4 != 2 { return Err(PpErr::BadVersion(vc >> 4)); }
+    let command = vc & 0x0F;
+    if command > 1 { return Err(PpErr::BadCommand(command)); }
+    let fp = buf[13];
+    let (family, transport) = (fp >> 4, fp & 0x0F);
+    if family > 3 { return Err(PpErr::BadFamily(family)); }
+    if transport > 2 { return Err(PpErr::BadTransport(transport)); }
+    let len = u16::from_be_bytes([buf[14], buf[15]]) as usize;
+    let need = match family { 0 => 0, 1 => 12, 2 => 36, _ => 216 };
+    if len < need { return Err(PpErr::LenTooSmall { family, len }); }
+    if buf.len() < 16 + len { return Err(PpErr::Short(16 + len)); }
+    let b = &buf[16..16 + len];
+    let mut d = PpDecoded { command, family, transport, src: None, dst: None, unix: None, tlvs: vec![], total_len: 16 + len };
+    match family {
+        1 => {
+            let s = Ipv4Addr::new(b[0], b[1], b[2], b[3]);
+            let t = Ipv4Addr::new(b[4], b[5], b[6], b[7]);
+            d.src = Some(SocketAddr::new(IpAddr::V4(s), u16::from_be_bytes([b[8], b[9]])));
+            d.dst = Some(SocketAddr::new(IpAddr::V4(t), u16::from_be_bytes([b[10], b[11]])));
+        }
+        2 => {
+            let mut s = [0u8; 16];
+            let mut t = [0u8; 16];
+            s.copy_from_slice(&b[0..16]);
+            t.copy_from_slice(&b[16..32]);
+            d.src = Some(SocketAddr::new(IpAddr::V6(Ipv6Addr::from(s)), u16::from_be_bytes([b[32], b[33]])));
+            d.dst = Some(SocketAddr::new(IpAddr::V6(Ipv6Addr::from(t)), u16::from_be_bytes([b[34], b[35]])));
+        }
+        3 => { d.unix = Some((b[0..108].to_vec(), b[108..216].to_vec())); }
+        _ => {}
+    }
+    if family != 0 {
+        // everything after the address block is a TLV vector
+        let mut p = need;
+        while p < len {
+            if p + 3 > len { return Err(PpErr::BadTlv(p)); }
+            let l = u16::from_be_bytes([b[p + 1], b[p + 2]]) as usize;
+            if p + 3 + l > len { return Err(PpErr::BadTlv(p)); }
+            d.tlvs.push((b[p], b[p + 3..p + 3 + l].to_vec()));
+            p += 3 + l;
+        }
+    }
+    Ok(d)
+}
+
+// =========================================================================== peers
+
+/// How a side ends the connection once all of its own bytes are written.
+#[derive(Clone, Copy, Debug, Serialize, Deserialize, PartialEq)]
+pub enum End {
+    /// keep the write side open; close once EOF (or an error) was read
+    WaitPeer,
+    /// close as soon as every planned byte of the other side was received (or EOF): a clean close
+    /// whose own last bytes are typically still in flight inside the proxy
+    AfterAll,
+    /// close only when, in addition, the other side has confirmed (out of band, on the simulator's
+    /// blackboard) that it received every byte of this side: nothing is in flight at FIN time
+    AfterDelivered,
+    /// `shutdown(SHUT_WR)` right after the last own byte, keep reading until EOF, then close
+    HalfClose,
+    /// `close()` right after the last own byte without draining (AF_UNIX: reset if unread data is queued)
+    CloseNow,
+}
+
+/// One literal fragment written with a single `write` (retried until complete), then a pause.
+#[derive(Clone, Debug, Serialize, Deserialize, PartialEq)]
+pub struct Frag {
+    /// end offset in (literal prefix ++ stream) coordinates
+    pub upto: u64,
+    /// virtual pause after the fragment; >0 guarantees the proxy sees the split
+    pub delay_ns: u64,
+}
+
+#[derive(Clone, Debug, Serialize, Deserialize, PartialEq)]
+pub struct SidePlan {
+    /// blackboard names of this side and of the other side of the same session
+    pub tag: String,
+    pub peer_tag: String,
+    /// key of the stream this side sends / length
+    pub key: u64,
+    pub len: u64,
+    /// key of the stream it verifies / how many bytes the other side plans to send
+    pub peer_key: u64,
+    pub peer_len: u64,
+    pub pace: Pace,
+    pub sndbuf: Option<i32>,
+    /// back-pressure: no read before start + this
+    pub read_hold_ns: u64,
+    /// no write before start + this
+    pub write_hold_ns: u64,
+    pub end: End,
+    /// literal bytes written before the stream (the client's PROXY header) and their fragmentation
+    pub pre: Vec<u8>,
+    pub frags: Vec<Frag>,
+    /// give up (close, flagged) this long after start
+    pub deadline_ns: u64,
+}
+
+/// What the receiving side expects before the keyed stream starts.
+#[derive(Clone, Debug, Serialize, Deserialize, PartialEq)]
+pub enum Prefix {
+    None,
+    /// a PROXY v2 header generated by the proxy: decoded strictly, whatever its addresses
+    V2Header,
+    /// exactly these bytes (relayed header)
+    Exact(Vec<u8>),
+}
+
+#[derive(Clone, Debug, Default, Serialize, Deserialize)]
+pub struct SideRecord {
+    pub connected: bool,
+    pub connect_err: Option<i32>,
+    /// stream bytes accepted by the kernel (literal prefix excluded) / literal prefix bytes written
+    pub sent: u64,
+    pub pre_sent: u64,
+    pub wr_err: Option<i32>,
+    pub wr_blocked: u64,
+    /// raw bytes received in total / stream bytes verified
+    pub raw_received: u64,
+    pub received: u64,
+    pub first_bad: Option<u64>,
+    pub eof: bool,
+    pub rd_err: Option<i32>,
+    /// stream bytes received when EOF / the error was observed
+    pub received_at_eof: u64,
+    pub fin_sent: bool,
+    /// unread bytes were queued when this side called close()
+    pub unread_at_close: bool,
+    pub closed: bool,
+    pub gave_up: bool,
+    pub t_start: u64,
+    pub t_eof: u64,
+    pub t_last_rx: u64,
+    pub t_sent_all: u64,
+    pub t_end: u64,
+    /// first raw bytes received (diagnostics and header oracles)
+    pub head: Vec<u8>,
+    /// length of the recognised prefix; None = prefix not recognised (stream checked from offset 0)
+    pub prefix_len: Option<usize>,
+    pub prefix_error: Option<String>,
+}
+
+pub struct Peer {
+    pub plan: SidePlan,
+    pub rec: SideRecord,
+    pub prefix: Prefix,
+    fd: i32,
+    rng: Prng,
+    frags: VecDeque<Frag>,
+    /// position in (pre ++ stream)
+    pos: u64,
+    check: BodyCheck,
+    prefix_done: bool,
+    pending: Vec<u8>,
+    wr_dead: bool,
+    done: bool,
+    sleep_until: u64,
+    rx_all_published: bool,
+}
+
+const HEAD_KEEP: usize = 640;
+/// how long a backend that saw no connection waits after its client finished before reporting done
+pub const BACKEND_QUIET_NS: u64 = 2_000_000_000;
+
+impl Peer {
+    pub fn new(plan: SidePlan, prefix: Prefix, fd: i32, rng: Prng, now: u64) -> Peer {
+        let frags = plan.frags.iter().cloned().collect();
+        let check = BodyCheck::new(plan.peer_key);
+        let prefix_done = prefix == Prefix::None;
+        let mut rec = SideRecord { connected: true, t_start: now, ..Default::default() };
+        if prefix_done { rec.prefix_len = Some(0); }
+        if let Some(sb) = plan.sndbuf { let _ = sys::setsockopt_int(fd, libc::SOL_SOCKET, libc::SO_SNDBUF, sb); }
+        Peer { plan, rec, prefix, fd, rng, frags, pos: 0, check, prefix_done, pending: Vec::new(), wr_dead: false, done: false, sleep_until: 0, rx_all_published: false }
+    }
+    pub fn is_done(&self) -> bool { self.done }
+    fn total(&self) -> u64 { self.plan.pre.len() as u64 + self.plan.len }
+
+    fn byte_at(&self, p: u64) -> u8 {
+        let pl = self.plan.pre.len() as u64;
+        if p < pl { self.plan.pre[p as usize] } else { gen_byte(self.plan.key, p - pl) }
+    }
+
+    fn feed_stream(&mut self, data: &[u8]) {
+        self.check.feed(data);
+        self.rec.received = self.check.received;
+        self.rec.first_bad = self.check.first_bad;
+    }
+
+    /// Raw bytes from the socket: split the expected prefix off, verify the rest as the keyed stream.
+    fn feed(&mut self, data: &[u8], at_eof: bool) {
+        self.rec.raw_received += data.len() as u64;
+        if self.rec.head.len() < HEAD_KEEP {
+            let k = (HEAD_KEEP - self.rec.head.len()).min(data.len());
+            self.rec.head.extend_from_slice(&data[..k]);
+        }
+        if self.prefix_done {
+            self.feed_stream(data);
+            return;
+        }
+        self.pending.extend_from_slice(data);
+        let decided: Option<usize> = match &self.prefix {
+            Prefix::None => Some(0),
+            Prefix::Exact(h) => {
+                let n = h.len().min(self.pending.len());
+                if self.pending[..n] != h[..n] {
+                    let at = (0..n).find(|i| self.pending[*i] != h[*i]).unwrap_or(0);
+                    self.rec.prefix_error = Some(format!("relayed header differs from the header sent at byte {at}"));
+                    Some(usize::MAX)
+                } else if self.pending.len() >= h.len() { Some(h.len()) } else { None }
+            }
+            Prefix::V2Header => match decode_v2(&self.pending) {
+                Ok(d) => Some(d.total_len),
+                Err(PpErr::Short(_)) => None,
+                Err(e) => { self.rec.prefix_error = Some(format!("{e:?}")); Some(usize::MAX) }
+            },
+        };
+        match decided {
+            Some(usize::MAX) => {
+                // not the expected prefix: everything is checked as stream bytes from offset 0
+                self.prefix_done = true;
+                self.rec.prefix_len = None;
+                let p = std::mem::take(&mut self.pending);
+                self.feed_stream(&p);
+            }
+            Some(n) => {
+                self.prefix_done = true;
+                self.rec.prefix_len = Some(n);
+                let p = std::mem::take(&mut self.pending);
+                self.feed_stream(&p[n..]);
+            }
+            None => {
+                if at_eof && self.rec.prefix_error.is_none() {
+                    self.rec.prefix_error = Some(format!("connection ended inside the expected prefix after {} bytes", self.pending.len()));
+                }
+            }
+        }
+    }
+
+    fn close(&mut self, now: u64) {
+        if self.fd >= 0 {
+            // anything unread at close() turns the close into a reset on AF_UNIX
+            let mut b = [0u8; 1];
+            let r = unsafe { sys::sc!(libc::SYS_recvfrom, self.fd, b.as_mut_ptr(), 1, libc::MSG_PEEK | libc::MSG_DONTWAIT, 0, 0) };
+            self.rec.unread_at_close = r > 0;
+            sys::close(self.fd);
+            self.fd = -1;
+        }
+        self.rec.closed = true;
+        self.rec.t_end = now;
+        self.done = true;
+    }
+
+    /// One scheduling quantum. `Step::Done` once the connection was closed by this side.
+    pub fn step(&mut self, w: &mut World) -> Step {
+        if self.done { return Step::Done; }
+        let now = w.now;
+        let t0 = self.rec.t_start;
+        let deadline = t0 + self.plan.deadline_ns;
+        if now >= deadline {
+            self.rec.gave_up = true;
+            w.stats.fault("tcp_peer_gave_up");
+            self.close(now);
+            return Step::Done;
+        }
+        if now < self.sleep_until { return Step::Sleep(self.sleep_until.min(deadline)); }
+        let mut progressed = false;
+        let mut wake = deadline;
+        let total = self.total();
+
+        // ---- read side
+        let reading = !self.rec.eof && !(self.plan.end == End::CloseNow && (self.pos >= total || self.wr_dead));
+        if reading {
+            if now < t0 + self.plan.read_hold_ns {
+                wake = wake.min(t0 + self.plan.read_hold_ns);
+            } else {
+                let want = self.plan.pace.rq.draw(&mut self.rng).min(262144);
+                let mut buf = vec![0u8; want];
+                match rd(self.fd, &mut buf) {
+                    Io::N(n) => {
+                        progressed = true;
+                        self.rec.t_last_rx = now;
+                        self.feed(&buf[..n], false);
+                        w.tr(0x7C, n as u64);
+                    }
+                    Io::WouldBlock => {}
+                    Io::Eof => {
+                        progressed = true;
+                        self.rec.eof = true;
+                        self.rec.t_eof = now;
+                        self.feed(&[], true);
+                        self.rec.received_at_eof = self.rec.received;
+                        w.tr(0x7E, self.rec.raw_received);
+                    }
+                    Io::Err(e) => {
+                        progressed = true;
+                        self.rec.eof = true;
+                        self.rec.rd_err = Some(e);
+                        self.rec.t_eof = now;
+                        self.feed(&[], true);
+                        self.rec.received_at_eof = self.rec.received;
+                        w.tr(0x7F, e as u64);
+                    }
+                }
+            }
+        }
+
+        if !self.rx_all_published && self.prefix_done && self.rec.received >= self.plan.peer_len {
+            self.rx_all_published = true;
+            w.board_set(&format!("tcp_rxall/{}", self.plan.tag), 1);
+        }
+
+        // ---- write side
+        if self.pos < total && !self.wr_dead && !self.rec.fin_sent {
+            if now < t0 + self.plan.write_hold_ns {
+                wake = wake.min(t0 + self.plan.write_hold_ns);
+            } else {
+                // a pending literal fragment is written whole; otherwise the pace decides
+                while let Some(f) = self.frags.front() { if f.upto <= self.pos { self.frags.pop_front(); } else { break; } }
+                let (q, frag_delay) = match self.frags.front() {
+                    Some(f) => ((f.upto.min(total) - self.pos) as usize, Some(f.delay_ns)),
+                    None => (self.plan.pace.wq.draw(&mut self.rng).min((total - self.pos) as usize).min(262144), None),
+                };
+                let chunk: Vec<u8> = (0..q as u64).map(|i| self.byte_at(self.pos + i)).collect();
+                match wr(self.fd, &chunk) {
+                    Io::N(n) => {
+                        progressed = true;
+                        self.pos += n as u64;
+                        let pl = self.plan.pre.len() as u64;
+                        self.rec.pre_sent = self.pos.min(pl);
+                        self.rec.sent = self.pos.saturating_sub(pl);
+                        w.tr(0x7A, n as u64);
+                        if self.pos >= total { self.rec.t_sent_all = now; }
+                        if n == q {
+                            if let Some(d) = frag_delay {
+                                self.frags.pop_front();
+                                if d > 0 { self.sleep_until = now + d; return Step::Sleep((now + d).min(deadline)); }
+                            }
+                        }
+                    }
+                    Io::WouldBlock => { self.rec.wr_blocked += 1; }
+                    Io::Eof => {}
+                    Io::Err(e) => {
+                        // EPIPE / ECONNRESET: the proxy closed; keep reading what is left
+                        progressed = true;
+                        self.rec.wr_err = Some(e);
+                        self.wr_dead = true;
+                        w.tr(0x7B, e as u64);
+                    }
+                }
+            }
+        }
+
+        // ---- ending
+        let sent_all = self.pos >= total || self.wr_dead;
+        let ended = self.rec.eof;
+        match self.plan.end {
+            End::HalfClose => {
+                if sent_all && !self.rec.fin_sent && !ended {
+                    let _ = sys::shutdown(self.fd, libc::SHUT_WR);
+                    self.rec.fin_sent = true;
+                    w.stats.fault("tcp_half_close");
+                    w.tr(0x7D, self.rec.sent);
+                    progressed = true;
+                }
+                if sent_all && ended { self.close(now); return Step::Done; }
+            }
+            End::CloseNow => {
+                if sent_all { w.stats.fault("tcp_close_now"); self.close(now); return Step::Done; }
+            }
+            End::AfterAll => {
+                if sent_all && (ended || (self.prefix_done && self.rec.received >= self.plan.peer_len)) { self.close(now); return Step::Done; }
+            }
+            End::AfterDelivered => {
+                if sent_all && (ended || (self.prefix_done && self.rec.received >= self.plan.peer_len && w.board_get(&format!("tcp_rxall/{}", self.plan.peer_tag)) > 0)) { self.close(now); return Step::Done; }
+            }
+            End::WaitPeer => {
+                if sent_all && ended { self.close(now); return Step::Done; }
+            }
+        }
+        if progressed {
+            if let Some(t) = self.plan.pace.gap(w, &mut self.rng) { self.sleep_until = t; return Step::Sleep(t.min(deadline)); }
+            Step::Progress
+        } else {
+            Step::Idle(wake)
+        }
+    }
+}
+
+impl Drop for Peer {
+    fn drop(&mut self) { if self.fd >= 0 { sys::close(self.fd); self.fd = -1; } }
+}
+
+// --------------------------------------------------------------------------- client
+
+#[derive(Clone, Debug, Serialize, Deserialize)]
+pub struct TcpClientPlan {
+    pub name: String,
+    pub src: SocketAddr,
+    pub dst: SocketAddr,
+    pub start_ns: u64,
+    /// connect only once the backend serving this client listens (blackboard `tcp_listening/<name>`)
+    pub wait_backend: bool,
+    pub side: SidePlan,
+}
+
+pub struct TcpClient {
+    pub plan: TcpClientPlan,
+    pub rec: SideRecord,
+    peer: Option<Peer>,
+    rng: Prng,
+    start_at: u64,
+    finished: bool,
+}
+
+impl TcpClient {
+    pub fn new(plan: TcpClientPlan, rng: Prng) -> TcpClient {
+        TcpClient { plan, rec: SideRecord::default(), peer: None, rng, start_at: 0, finished: false }
+    }
+    pub fn record(&self) -> SideRecord {
+        match &self.peer { Some(p) => p.rec.clone(), None => self.rec.clone() }
+    }
+    fn finish(&mut self, w: &mut World) -> Step {
+        if !self.finished {
+            self.finished = true;
+            w.board_add("tcp_done", 1);
+            w.board_set(&format!("tcp_client_done/{}", self.plan.name), 1);
+        }
+        Step::Done
+    }
+}
+
+impl Actor for TcpClient {
+    fn name(&self) -> String { self.plan.name.clone() }
+    fn as_any(&mut self) -> &mut dyn Any { self }
+    fn as_any_ref(&self) -> &dyn Any { self }
+
+    fn step(&mut self, w: &mut World) -> Step {
+        if self.finished { return Step::Done; }
+        if self.peer.is_none() {
+            if w.board_get("configured") == 0 { return Step::Blocked; }
+            if self.plan.wait_backend && w.board_get(&format!("tcp_listening/{}", self.plan.name)) == 0 { return Step::Blocked; }
+            if self.start_at == 0 { self.start_at = w.now + self.plan.start_ns; }
+            if w.now < self.start_at { return Step::Sleep(self.start_at); }
+            let (src, dst) = (self.plan.src, self.plan.dst);
+            match w.peer_connect(&src, &dst, None) {
+                Ok(fd) => {
+                    let rng = self.rng.fork("peer");
+                    self.peer = Some(Peer::new(self.plan.side.clone(), Prefix::None, fd, rng, w.now));
+                    return Step::Progress;
+                }
+                Err(e) => {
+                    self.rec.connect_err = Some(e);
+                    return self.finish(w);
+                }
+            }
+        }
+        let r = self.peer.as_mut().unwrap().step(w);
+        wake_watchdog(w);
+        if r == Step::Done { return self.finish(w); }
+        r
+    }
+}
+
+// --------------------------------------------------------------------------- backend
+
+#[derive(Clone, Debug, Serialize, Deserialize)]
+pub struct TcpBackendPlan {
+    pub name: String,
+    pub addr: SocketAddr,
+    /// name of the client whose connection this backend serves (completion signalling)
+    pub client: String,
+    pub prefix: Prefix,
+    pub side: SidePlan,
+}
+
+pub struct TcpBackend {
+    pub plan: TcpBackendPlan,
+    lfd: i32,
+    conns: Vec<Peer>,
+    rng: Prng,
+    signalled: bool,
+    client_done_at: Option<u64>,
+    /// local names of the proxy's connecting sockets, per accepted connection
+    pub peers_seen: Vec<Option<SocketAddr>>,
+}
+
+impl TcpBackend {
+    pub fn new(plan: TcpBackendPlan, rng: Prng) -> TcpBackend {
+        TcpBackend { plan, lfd: -1, conns: Vec::new(), rng, signalled: false, client_done_at: None, peers_seen: Vec::new() }
+    }
+    /// one record per accepted connection, in accept order
+    pub fn records(&self) -> Vec<SideRecord> { self.conns.iter().map(|p| p.rec.clone()).collect() }
+}
+
+impl Actor for TcpBackend {
+    fn name(&self) -> String { self.plan.name.clone() }
+    fn as_any(&mut self) -> &mut dyn Any { self }
+    fn as_any_ref(&self) -> &dyn Any { self }
+    fn class(&self) -> u8 { 1 }
+
+    fn step(&mut self, w: &mut World) -> Step {
+        if self.lfd < 0 {
+            let addr = self.plan.addr;
+            match w.peer_listen(&addr) {
+                Ok(fd) => {
+                    self.lfd = fd;
+                    // the client of this backend only connects once the backend listens (a real backend is up first)
+                    w.board_set(&format!("tcp_listening/{}", self.plan.client), 1);
+                    return Step::Progress;
+                }
+                Err(e) => panic!("tcp backend listen failed: errno {e}"),
+            }
+        }
+        let mut progressed = false;
+        if let Ok((fd, peer)) = sys::accept_unix(self.lfd, libc::SOCK_NONBLOCK | libc::SOCK_CLOEXEC) {
+            progressed = true;
+            self.peers_seen.push(World::parse_name(&peer));
+            // every connection is served alike (a real server does not know it is being re-dialled)
+            let side = self.plan.side.clone();
+            if !self.conns.is_empty() { w.stats.fault("tcp_extra_backend_connection"); }
+            let rng = self.rng.fork("conn");
+            w.tr(0x7AC, self.conns.len() as u64);
+            self.conns.push(Peer::new(side, self.plan.prefix.clone(), fd, rng, w.now));
+        }
+        let mut wake: Option<u64> = None;
+        let mut sleep_all: Option<u64> = None;
+        let n = self.conns.len();
+        let mut live = 0;
+        for i in 0..n {
+            if self.conns[i].is_done() { continue; }
+            live += 1;
+            match self.conns[i].step(w) {
+                Step::Progress | Step::Done => progressed = true,
+                // a pausing connection is not progress (time must be able to advance); it wakes the actor at t
+                Step::Sleep(t) => { sleep_all = Some(sleep_all.map_or(t, |x: u64| x.min(t))); wake = Some(wake.map_or(t, |x: u64| x.min(t))); }
+                Step::Idle(t) => { wake = Some(wake.map_or(t, |x: u64| x.min(t))); }
+                Step::Blocked => {}
+            }
+        }
+        let all_done = self.conns.iter().all(|p| p.is_done());
+        if self.client_done_at.is_none() && w.board_get(&format!("tcp_client_done/{}", self.plan.client)) > 0 {
+            self.client_done_at = Some(w.now);
+        }
+        if let (false, true, Some(t)) = (self.signalled, all_done, self.client_done_at) {
+            // without any connection so far, give the proxy a quiet period to open one
+            if !self.conns.is_empty() || w.now >= t + BACKEND_QUIET_NS {
+                self.signalled = true;
+                w.board_add("tcp_done", 1);
+                progressed = true;
+            } else {
+                wake = Some(wake.map_or(t + BACKEND_QUIET_NS, |x: u64| x.min(t + BACKEND_QUIET_NS)));
+            }
+        }
+        wake_watchdog(w);
+        if let Some(t) = sleep_all {
+            // a pause of the single live connection pauses the whole actor
+            if live <= 1 && !progressed { return Step::Sleep(t); }
+        }
+        if progressed { return Step::Progress; }
+        match wake { Some(t) => Step::Idle(t), None => Step::Blocked }
+    }
+}
+
+impl Drop for TcpBackend {
+    fn drop(&mut self) { if self.lfd >= 0 { sys::close(self.lfd); self.lfd = -1; } }
+}
+
+// --------------------------------------------------------------------------- spin watchdog
+//
+// A proxy loop that never returns to `epoll_wait` (for instance `loop { write(fd, &[]) }`) would
+// hang the simulation: actors only run at `epoll_wait` and, with `preempt_pm > 0`, inside the
+// proxy's data syscalls. This actor keeps itself runnable whenever the proxy is about to get
+// control with socket events pending, counts the proxy's data syscalls per loop iteration from
+// inside the hooks, and past a budget no legitimate iteration needs breaks the loop by shutting
+// down the write side of every proxy socket (its next write fails with EPIPE). Deterministic:
+// it is driven by the scheduler PRNG only. Runs that tripped it are reported as `spin`.
+
+pub const SPIN_BUDGET: u64 = 300_000;
+
+pub fn wake_watchdog(w: &mut World) {
+    let id = w.board.get("tcp_watchdog").copied().unwrap_or(0);
+    if id > 0 { w.wake(id as usize - 1); }
+}
+
+pub struct SpinWatchdog {
+    last_iter: u64,
+    base_calls: u64,
+    /// (proxy loop iteration, data syscalls in it) for every time the loop had to be broken
+    pub trips: Vec<(u64, u64)>,
+}
+
+impl SpinWatchdog {
+    pub fn new() -> SpinWatchdog { SpinWatchdog { last_iter: u64::MAX, base_calls: 0, trips: Vec::new() } }
+    /// register: call once after `add_actor`
+    pub fn install(w: &mut World) -> usize {
+        let id = w.add_actor(Box::new(SpinWatchdog::new()));
+        w.board.insert("tcp_watchdog".into(), id as i64 + 1);
+        id
+    }
+    fn events_pending(w: &World) -> bool {
+        // an epoll descriptor polls readable while its ready list is non-empty; polling consumes nothing
+        let Some((epfd, _, _)) = w.epoll_regs.values().next().copied() else { return false };
+        let mut pfd = libc::pollfd { fd: epfd, events: libc::POLLIN, revents: 0 };
+        let r = unsafe { sys::sc!(libc::SYS_poll, &mut pfd as *mut libc::pollfd, 1, 0) };
+        r > 0 && pfd.revents & libc::POLLIN != 0
+    }
+}
+
+impl Actor for SpinWatchdog {
+    fn name(&self) -> String { "spin-watchdog".into() }
+    fn as_any(&mut self) -> &mut dyn Any { self }
+    fn as_any_ref(&self) -> &dyn Any { self }
+    fn class(&self) -> u8 { 2 }
+
+    fn step(&mut self, w: &mut World) -> Step {
+        let calls = w.stats.sozu_writes + w.stats.sozu_reads;
+        if w.iterations != self.last_iter { self.last_iter = w.iterations; self.base_calls = calls; }
+        if w.hook_depth > 0 {
+            if calls - self.base_calls > SPIN_BUDGET {
+                self.trips.push((w.iterations, calls - self.base_calls));
+                self.base_calls = calls;
+                let fds: Vec<i32> = w.sozu_fds.iter().filter(|(_, k)| **k == 'c' || **k == 'a').map(|(fd, _)| *fd).collect();
+                for fd in fds {
+                    let _ = sys::shutdown(fd, libc::SHUT_WR);
+                    w.shut_wr.insert(fd);
+                }
+                w.stats.fault("proxy_spin_broken");
+                w.tr(0x5B1, self.trips.len() as u64);
+            }
+            return Step::Progress;
+        }
+        if SpinWatchdog::events_pending(w) { return Step::Progress; }
+        match w.rearm.values().copied().filter(|t| *t > w.now).min() {
+            Some(t) => Step::Idle(t),
+            None => Step::Blocked,
+        }
+    }
+}
